@@ -241,6 +241,32 @@ fn run_ep<I: Val, O: Val>(ep: &str, counter: u8, b: Bencher) {
             _ => {}
         }
     }
+    // ic = 7: a constant counter of the same kind set *after* the input counter ("override an existing
+    // counter of the same type", as `Bencher::counter` documents): the constant must be what is reported
+    if counter == 7 {
+        let c = || divan::counter::ItemsCount::new(1000u64);
+        match ep {
+            "values" => {
+                return b.with_inputs(make_input::<I>).input_counter(count).counter(c()).bench_values(|i: I| {
+                    let id = i.id();
+                    std::mem::forget(i);
+                    call::<O>(id)
+                })
+            }
+            "refs" => return b.with_inputs(make_input::<I>).input_counter(count).counter(c()).bench_refs(|i: &mut I| call::<O>(i.id())),
+            "local_values" => {
+                return b.with_inputs(make_input::<I>).input_counter(count).counter(c()).bench_local_values(|i: I| {
+                    let id = i.id();
+                    std::mem::forget(i);
+                    call::<O>(id)
+                })
+            }
+            "local_refs" => {
+                return b.with_inputs(make_input::<I>).input_counter(count).counter(c()).bench_local_refs(|i: &mut I| call::<O>(i.id()))
+            }
+            _ => {}
+        }
+    }
     // `count_inputs_as::<C>()`: integer inputs counted by conversion (no closure, so no count event);
     // ic = 3, 4, 5, 6 ask for bytes, chars, cycles, items. The input is its own id.
     if counter >= 3 {
@@ -601,11 +627,20 @@ pub fn gen(rng: &mut Rng, n: usize, prec: u64) -> Vec<String> {
             mint
         };
         let ic: u8 = if ep != "bench" && ep != "bench_local" && rng.chance(1, 3) {
-            if rng.chance(1, 4) { 3 + rng.below(4) as u8 } else { 1 + rng.chance(1, 3) as u8 }
+            if rng.chance(1, 4) { 3 + rng.below(4) as u8 } else if rng.chance(1, 6) { 7 } else { 1 + rng.chance(1, 3) as u8 }
         } else {
             0
         };
-        let items = if rng.chance(1, 4) { (1 + rng.below(100)).to_string() } else { "-".into() };
+        // constant counters, now and then of a magnitude whose sums leave 64 bits
+        let items = if rng.chance(1, 4) {
+            if rng.chance(1, 5) {
+                [1u64 << 63, (1u64 << 63) + 1 + rng.below(1000), u64::MAX, u64::MAX - 1 - rng.below(1000), (1u64 << 63) - 1][rng.below(5) as usize].to_string()
+            } else {
+                (1 + rng.below(100)).to_string()
+            }
+        } else {
+            "-".into()
+        };
         // counted by conversion: the inputs are plain integers, and no other counter is set
         let items = if ic >= 3 { "-".to_string() } else { items };
         let panic = if rng.chance(1, 8) { format!("{}:{}", rng.below(t as u64), rng.below(12)) } else { "-".into() };
